@@ -3248,6 +3248,10 @@ impl<'a, R: FileManager> FrontendCtx<'a, R> {
             f: file_name.clone(),
             s: k.span,
         };
+        if k.name_type.is_some() {
+            // `[K in X as F<K>]` renames / filters the keys: lowering it with the keys of X would be a different type
+            return self.error(&anchor, DiagnosticInfoMessage::MappedTypeAsClauseNotSupported);
+        }
         let name = k.type_param.name.sym.to_string();
         let constraint = match k.type_param.constraint {
             Some(ref it) => it.as_ref(),
